@@ -9,7 +9,7 @@ CTYPE = "bool * Z * Z * list ev * list (Z * Z * bool * bool)"
 AGREE = ("  let '(full, seq0, req0, evs, obs) := c in\n"
          "  schedule_agrees full seq0 req0 evs obs")
 
-EV = {"gate": "EGate", "active": "EActive", "id": "EId", "locki": "ELockI", "chunk": "EChunk",
+EV = {"gate": "EGate", "active": "EActive", "id": "EId", "locki": "ELockI", "chunk": "EChunk", "fail": "EFail",
       "unlocki": "EUnlockI", "done": "EDone"}
 REV = {"renstart": "ERenStart", "rengate": "ERenGate", "rendrain": "ERenDrain", "renlock": "ERenLock", "rencopy": "ERenCopy",
        "renopn": "ERenOpn", "reninstall": "ERenInstall", "renfail": "ERenFail", "renunlock": "ERenUnlock"}
@@ -54,27 +54,55 @@ def classify(c):
     return overtook, failed
 
 
+def early_failures(c):
+    """number of sends that failed after taking their first sequence number but before writing a chunk"""
+    written, n = {}, 0
+    for e in c["events"]:
+        if e[0] == "chunk":
+            written[e[1]] = written.get(e[1], 0) + 1
+        elif e[0] == "fail" and not written.get(e[1]):
+            n += 1
+    return n
+
+
 def oracle(c):
     fails = []
     w = c["wire"]
     overtook, failed = classify(c)
-    if w and not c.get("sign") and w[0][0] != next_seq(c["seq0"]):
-        fails.append(("sequence-numbers-not-consecutive", "the first chunk carries sequence number %d, the counter was %d before" % (w[0][0], c["seq0"])))
-    for i in range(1, len(w)):
-        if c.get("sign") and (w[i][3] or w[i - 1][3]):
+    # a gap of exactly the numbers used up by early failures is the known finding; anything else is not
+    gaps, budget = 0, early_failures(c)
+    prev = c["seq0"]
+    for i in range(len(w)):
+        if c.get("sign") and (w[i][3] or (i > 0 and w[i - 1][3])):
+            prev = w[i][0]
             continue    # the sequence header of an encrypted OPN is not readable on the wire
-        if w[i][0] != next_seq(w[i - 1][0]):
-            fails.append(("sequence-numbers-not-consecutive", "chunk %d carries sequence number %d after %d (request ids %d, %d)%s" % (
-                i, w[i][0], w[i - 1][0], w[i][1], w[i - 1][1], " after a failed renewal" if failed else "")))
-            break
+        if w[i][0] != next_seq(prev):
+            x, skipped = next_seq(prev), 0
+            while x != w[i][0] and skipped <= budget:
+                x, skipped = next_seq(x), skipped + 1
+            if x == w[i][0] and 0 < skipped <= budget - gaps:
+                gaps += skipped
+            else:
+                fails.append(("sequence-numbers-not-consecutive", "chunk %d carries sequence number %d after %d (request ids %d, %d)%s" % (
+                    i, w[i][0], prev, w[i][1], w[i - 1][1] if i else 0, " after a failed renewal" if failed else "")))
+                break
+        prev = w[i][0]
+    if gaps:
+        fails.append(("failed-send-before-first-chunk-leaves-gap", "%d sequence number(s) taken by requests that failed before their first chunk never reached the wire: %s" % (
+            gaps, [x[0] for x in w])))
+    # every chunk continues the message of the chunk before it or starts a message not seen before
     for i in range(1, len(w)):
         if c.get("sign") and (w[i][3] or w[i - 1][3]):
             continue
-        if not w[i - 1][2] and w[i][1] != w[i - 1][1]:
-            fails.append(("messages-interleaved", "chunk %d (request id %d) follows a non-final chunk of request id %d" % (i, w[i][1], w[i - 1][1])))
+        if w[i][1] != w[i - 1][1] and any(x[1] == w[i][1] for x in w[:i - 1]):
+            fails.append(("messages-interleaved", "chunk %d resumes request id %d after a chunk of request id %d" % (i, w[i][1], w[i - 1][1])))
             break
     if overtook:
         fails.append(("renewal-overtook-counted-sender", "pendingReq.Wait() returned while a request was between the renewal gate and pendingReq.Done()"))
+    if c["scenario"] == "witness-gate-atomic":
+        # while a sender is inside waitIfLockThen (gate seen open, not yet counted) the renewer cannot lock the gate
+        if not any(st[0] == "R0" and st[1] == "" and st[2] == "blocked" for st in c.get("steps", [])):
+            fails.append(("gate-check-and-count-not-atomic", "the renewal locked the gate while a sender was between the gate check and pendingReq.Add: steps %s" % c.get("steps")))
     if c["scenario"] in ("witness-renewal-window", "witness-interleaved-messages", "sign-renewal-window"):
         # the renewer must be seen blocked after it has locked the gate, while the first sender is counted
         if not any(st[0] == "R0" and st[1] == "sc.renew.gateLocked" and st[2] == "blocked" for st in c.get("steps", [])):
@@ -167,6 +195,8 @@ def run(ctx, mode="c11"):
         "samples": [{"scenario": c["scenario"], "schedule": c["schedule"][:20], "wire": c["wire"][:8]} for c in cases[:3] + cases[-1:]],
         "schedules_in_which_a_renewal_was_held_back_by_a_counted_sender": held,
         "schedules_with_failed_renewal": sum(1 for c in cases if classify(c)[1]),
+        "schedules_with_send_failing_between_chunks": sum(1 for c in cases if any(e[0] == "fail" for e in c["events"]) and not early_failures(c)),
+        "schedules_with_send_failing_before_first_chunk": sum(1 for c in cases if early_failures(c)),
         "schedules_with_renewal": sum(1 for c in cases if c.get("renews")),
         "chunks_on_wire": sum(len(c["wire"]) for c in cases), "scenario_errors": len(errors),
         "traces_validated_against_impl": len(cases), "model_impl_mismatches": len(mism),
